@@ -193,6 +193,7 @@ func (its *PushPullHandler) logInitialConditions() {
 
 func (its *PushPullHandler) process(retCh chan *model.PushPullPack) {
 
+	vhook.At("pp.before-lock", its.getLockKey(), its.collectionDoc.Num, its.Key, its.CUID)
 	its.locked = its.lock.TryLock()
 	vhook.At("pp.cs-enter", its.getLockKey(), its.locked, its.collectionDoc.Num, its.Key, its.CUID)
 
